@@ -15,6 +15,33 @@ from .cfg import CFG, Node
 Lit = Tuple[str, bool]          # (normalised atom text, polarity)
 
 
+_NEG_OP = {ast.Eq: ast.NotEq, ast.NotEq: ast.Eq, ast.Is: ast.IsNot, ast.IsNot: ast.Is, ast.In: ast.NotIn, ast.NotIn: ast.In,
+           ast.Lt: ast.GtE, ast.GtE: ast.Lt, ast.Gt: ast.LtE, ast.LtE: ast.Gt}
+
+
+def nnf(e: ast.AST, pol: bool = True) -> ast.AST:
+    """Negation normal form of `e` (pol=True) or of `not e` (pol=False): negations pushed through and/or/not; a negated comparison flips its
+    operator only for (in)equality / identity / membership (order comparisons keep an explicit `not`: `not a < b` is not `a >= b` for NaN or
+    partial orders).  Used to give compound guard literals ONE spelling whatever De Morgan form the source uses."""
+    if isinstance(e, ast.UnaryOp) and isinstance(e.op, ast.Not):
+        return nnf(e.operand, not pol)
+    if isinstance(e, ast.BoolOp):
+        op = e.op if pol else (ast.Or() if isinstance(e.op, ast.And) else ast.And())
+        vals = []
+        for v in e.values:
+            nv = nnf(v, pol)
+            if isinstance(nv, ast.BoolOp) and type(nv.op) is type(op):
+                vals += nv.values
+            else:
+                vals.append(nv)
+        return ast.BoolOp(op=op, values=vals)
+    if not pol:
+        if isinstance(e, ast.Compare) and len(e.ops) == 1 and type(e.ops[0]) in (ast.Eq, ast.NotEq, ast.Is, ast.IsNot, ast.In, ast.NotIn):
+            return ast.Compare(left=e.left, ops=[_NEG_OP[type(e.ops[0])]()], comparators=e.comparators)
+        return ast.UnaryOp(op=ast.Not(), operand=e)
+    return e
+
+
 def literals(cond: ast.AST, pol: bool = True) -> Set[Lit]:
     """Literals that certainly hold when `cond` evaluates to truthiness `pol`."""
     if isinstance(cond, ast.UnaryOp) and isinstance(cond.op, ast.Not):
@@ -30,7 +57,8 @@ def literals(cond: ast.AST, pol: bool = True) -> Set[Lit]:
             for v in cond.values:
                 out |= literals(v, False)
             return out
-        return {(ast.unparse(cond), pol)}
+        # a disjunction that holds (or a conjunction that fails): one compound literal, spelled in negation normal form with polarity True
+        return {(ast.unparse(nnf(cond, pol)), True)}
     if isinstance(cond, ast.Compare) and len(cond.ops) == 1:
         # normalise negated comparison operators into polarity
         op = cond.ops[0]
